@@ -739,7 +739,7 @@ def job_scale(j):
     col = Collector()
     pid = j.get("pid", "C09")
     for k in range(j.get("n_cases", 3)):
-        kind = rng.choice(["chain", "fan", "grid", "binary", "roots", "chain_beside_sequential", "fan_below_sequential"])
+        kind = rng.choice(["chain", "fan", "grid", "binary", "roots", "chain_beside_sequential", "fan_below_sequential", "fan_in"])
         n = rng.randint(j.get("nmin", 200), j.get("nmax", 600))
         if k == 0:
             kind, n = "chain", rng.randint(520, 700)  # deeper than half of Python's default recursion limit
@@ -764,6 +764,9 @@ def job_scale(j):
                 deps = [i - 1] if i > 1 else []  # site 0 = the sequential root, sites 1.. = a chain of their own
             elif kind == "fan_below_sequential":
                 deps = []  # site 0 = the sequential node (highest priority), all others independent roots of one wide level
+            elif kind == "fan_in":
+                # many roots and, at the end, call sites that take 33 .. 70 of them as arguments
+                deps = rng.sample(range(n - 3), rng.randint(33, min(70, n - 3))) if i >= n - 3 else []
             elif kind == "fan":
                 deps = [0] if i else []
             elif kind == "grid":
